@@ -123,6 +123,10 @@ class Revision(UserString):
 
 
 def ver_cmp(ver1: str, rev1: str, ver2: str, rev2: str) -> int:
+    # A missing revision (None, or an empty one) is revision 0.
+    rev1 = rev1 or 0
+    rev2 = rev2 or 0
+
     # If the versions are the same, comparing revisions will suffice.
     if ver1 == ver2:
         # revisions are equal if 0 or None (versionless cpv)
